@@ -416,6 +416,17 @@ func checkC17(c *ctx) {
 			c.Violation("C17 "+bad+"\nbatch: "+clip(b.Sx().String()), false)
 			return
 		}
+		if mode != zap.DefaultChunkMode {
+			// the same batch built in the default chunk mode (what an application's segments are)
+			sbd, _, err := zh.Build(b, zap.DefaultChunkMode)
+			must(err)
+			bad := publicSingleMerge(c, sbd, spec, uint64(len(b)))
+			sbd.Close()
+			if bad != "" {
+				c.Violation("C17 (segment built in the default chunk mode) "+bad+"\nbatch: "+clip(b.Sx().String()), false)
+				return
+			}
+		}
 		// after all those failed merges: merges running side by side must each be complete (whatever
 		// the failed ones handed back to shared pools must not be handed out twice)
 		{
@@ -970,16 +981,20 @@ func publicSingleMerge(c *ctx, sb *zap.SegmentBase, spec sx.V, n uint64) string 
 			c.Case(fmt.Sprintf("public-single-merge-%v-%d", emptyBM, k), k > 0 && k < len(good))
 			c.Count("public_single_merge_faults")
 			bad := ""
+			// (the size of the output varies by a few bytes from run to run when the segment has data in
+			// several sections - they are written in map order and offsets are varints - so "the limit
+			// is below the fault-free length" does not by itself mean the write must fail: success is
+			// judged by the file that was produced, failure by a margin)
 			switch {
-			case merr == nil && k < len(good):
-				bad = "Merge reported success although the destination cannot hold the output"
-			case merr != nil && k >= len(good):
+			case merr != nil && k >= len(good)+64:
 				bad = "Merge failed (" + merr.Error() + ") although the destination can hold the output"
 			case merr != nil && exists(path):
 				bad = fmt.Sprintf("Merge returned an error (%v) but left a file at the path", merr)
 			case merr == nil:
 				got, _ := os.ReadFile(path)
-				if p := parseMergedAgainst(c, got, mspec, allParts); p != "" {
+				if len(got) > k {
+					bad = fmt.Sprintf("Merge reported success with a file of %d bytes above the limit", len(got))
+				} else if p := parseMergedAgainst(c, got, mspec, allParts); p != "" {
 					bad = "Merge reported success but the file does not decode to the merged content: " + p
 				}
 			}
